@@ -602,7 +602,10 @@ func (obj *Package) Undefine(name string) {
 	name = strings.ToLower(name)
 	obj.mu.Lock()
 	var home *Package
-	if fi := obj.funcs[name]; fi != nil {
+	if fi := obj.funcs[name]; fi != nil && fi.Pkg == obj && obj.Locked {
+		obj.mu.Unlock()
+		PackagePanic(NewScope(), 0, obj, "Package %s is locked.", obj.Name)
+	} else if fi != nil {
 		delete(obj.funcs, name)
 		if fi.Pkg == obj {
 			for _, u := range obj.Users {
